@@ -377,6 +377,7 @@ type caseRef struct {
 	Doc      string   `json:"doc,omitempty"`
 	Note     []string `json:"note,omitempty"`
 	Plan     []blockPlan `json:"block_plan,omitempty"` // reader-reuse scenarios: events / timestamp width / HighTs-LowTs / HighTs per block
+	Wide     *widePlan   `json:"wide_plan,omitempty"`  // wide-event scenarios: GOMAXPROCS, columns, absent columns per block
 }
 
 // the ops of a scenario as recorded in a replay: bulk requests of more than 40 documents keep the first
@@ -431,9 +432,15 @@ func planText(sc *Scenario, e Event) string {
 func oracle(sum *vhlib.Summary, sc *Scenario, qi int, op Op, recs []map[string]string, expected []Event, nonNumStrCol map[string]bool) int {
 	fails := 0
 	fail := func(class, detail string, c caseRef) {
+		if sc.Stream == "known:startup_scan_adopts_open_segment" {
+			// whatever the symptom (late column missing after rotation, events of the adopted blocks twice)
+			detail = "the start-up scan of the segment directories ran behind the first flush (regression of b77ca50: it must skip the OPEN segment and its running .sfm): " + class + ": " + detail
+			class = "startup_scan_adopts_open_segment"
+		}
 		c.Scenario, c.Stream, c.Card, c.Ops, c.Query = sc.Name, sc.Stream, sc.Card, replayOps(sc), qi
 		c.Plan = sc.Plan
-		sum.Fail(class, detail, c)
+		c.Wide = sc.Wide
+		sum.Fail(class, detail+widePlanText(sc), c)
 		fails++
 	}
 	// identity of an event: its (scenario-unique) timestamp, or the scenario's id field
@@ -645,15 +652,18 @@ func evalScenario(sum *vhlib.Summary, mu *sync.Mutex, si int, sc *Scenario, obs 
 	var segFlush []*FlushObs // their probe observations (nil: not a probe flush)
 	segKnown := true         // false after a restart: block numbering of the open segment not tracked
 	var reuseDefs []string
+	var wideFlush []string // wide scenarios: one item per probe flush for FlushSlots.check_flush_list
 	closeBlock := func() {
 		if len(pending) > 0 {
 			segBlocks = append(segBlocks, append([]Event{}, pending...))
 			segFlush = append(segFlush, nil)
-			evs := make([]string, len(pending))
-			for i, e := range pending {
-				evs[i] = coqEvent(e)
+			if sc.ToCoq {
+				evs := make([]string, len(pending))
+				for i, e := range pending {
+					evs[i] = coqEvent(e)
+				}
+				sops = append(sops, "SBlock "+vhlib.CoqListNL(evs))
 			}
-			sops = append(sops, "SBlock "+vhlib.CoqListNL(evs))
 			flushed = append(flushed, pending...)
 			pending = nil
 		}
@@ -683,7 +693,49 @@ func evalScenario(sum *vhlib.Summary, mu *sync.Mutex, si int, sc *Scenario, obs 
 				if hadPending && len(o.Flushes) == 1 && len(segFlush) > 0 {
 					segFlush[len(segFlush)-1] = &o.Flushes[0]
 				}
+				// every column block the flush stored must read back (and, in the light probe of a large block, be
+				// the column of the open block): independent of the model and of the search path
 				for _, f := range o.Flushes {
+					nbad := 0
+					for _, c := range f.Cols {
+						cr := caseRef{Scenario: sc.Name, Stream: sc.Stream, Card: sc.Card, Ops: replayOps(sc), Query: i, Key: c.Name, Wide: sc.Wide, Plan: sc.Plan}
+						switch {
+						case c.ReadErr != "":
+							nbad++
+							if nbad <= 3 {
+								sum.Fail("stored_column_block_unreadable", fmt.Sprintf("block %d of the segment (%d events): %s - the values of this column of these events are lost%s", f.BlockNum, f.RecCount, c.ReadErr, widePlanText(sc)), cr)
+							}
+							res.fails++
+						case op.Light && c.Enc >= 0 && !c.SameAsOpen:
+							nbad++
+							if nbad <= 3 {
+								sum.Fail("stored_column_block_holds_other_bytes", fmt.Sprintf("block %d of the segment (%d events): the stored block of column %q read back by SegmentFileReader (%d records) is not the column of the open block that was flushed: first difference at record %d%s", f.BlockNum, f.RecCount, c.Name, c.NRecs, c.FirstDiff, widePlanText(sc)), cr)
+							}
+							res.fails++
+						}
+					}
+					if sc.Wide != nil && f.TsBlock != "" {
+						// the flush walk: (column has data in the open block, a block of it was stored), timestamp column first
+						items := []string{"(true, true)"}
+						for _, c := range f.Cols {
+							items = append(items, fmt.Sprintf("(%v, %v)", c.HasData, c.Enc >= 0 || c.ReadErr != ""))
+						}
+						wideFlush = append(wideFlush, fmt.Sprintf("(%d%%nat, [%s])", 2*sc.Wide.Procs, strings.Join(items, "; ")))
+					}
+					if op.Light {
+						sum.Count("block/wide_light_probe")
+						for _, c := range f.Cols {
+							switch c.Enc {
+							case 0:
+								sum.Count("column/raw_block")
+							case 1:
+								sum.Count("column/dictionary_block")
+							default:
+								sum.Count("column/absent_in_block")
+							}
+						}
+						continue
+					}
 					if sc.Plan != nil && len(sc.Events) > 700 {
 						break // reader-reuse scenarios with large blocks: only the reread comparison goes to Coq
 					}
@@ -782,6 +834,12 @@ func evalScenario(sum *vhlib.Summary, mu *sync.Mutex, si int, sc *Scenario, obs 
 		}
 	}
 	if !sc.ToCoq {
+		// large wide scenarios: only the flush walk goes to Coq
+		if len(wideFlush) > 0 {
+			res.coq = fmt.Sprintf("Definition fl%d : list (nat * list (bool * bool)) := %s.\nDefinition c%d : list N := map (fun c => %d * 10000 + 9000 + N.of_nat c) (check_flush_list fl%d).\n",
+				si, vhlib.CoqListNL(wideFlush), si, si, si)
+			res.ncoq += len(wideFlush)
+		}
 		return res
 	}
 	// Coq case
@@ -831,6 +889,11 @@ func evalScenario(sum *vhlib.Summary, mu *sync.Mutex, si int, sc *Scenario, obs 
 		fmt.Fprintf(&sb, "Definition q%d : list (N * fields) := %s.\n", si, vhlib.CoqListNL(items))
 		parts = append(parts, fmt.Sprintf("map (fun c => 5000 + N.of_nat c) (check_e2e %s %d ops%d q%d)", fc, card, si, si))
 		res.ncoq++
+	}
+	if len(wideFlush) > 0 {
+		fmt.Fprintf(&sb, "Definition fl%d : list (nat * list (bool * bool)) := %s.\n", si, vhlib.CoqListNL(wideFlush))
+		parts = append(parts, fmt.Sprintf("map (fun c => 9000 + N.of_nat c) (check_flush_list fl%d)", si))
+		res.ncoq += len(wideFlush)
 	}
 	if len(parts) == 0 {
 		return res
@@ -1011,8 +1074,24 @@ func hashDocs(evs []Event) uint64 {
 // ---------- known-class stream ----------
 func q(page int) Op { return Op{Kind: "query", Page: page, Nulls: true} }
 
+// the start-up scan (a goroutine of InitQueryNode) scheduled after the first flush of the process: before the
+// repair b77ca50 it found the open segment's directory with its running .sfm, which lists the columns seen SO
+// FAR, and registered it as a rotated segment; the real rotation did not replace that entry, so a column that
+// first appeared in a later block was missing from every search of the rotated segment.  Regression stream: the
+// scan now skips segments this process is still writing; the scenario expects the exact round trip (oracle and
+// the model's read_all), a failure is reported under the class startup_scan_adopts_open_segment
+func genLateScan() *Scenario {
+	sc := handScenario("latescan", "known:startup_scan_adopts_open_segment", 0,
+		[][]string{{`{"a":1}`, `{"a":2}`}, {`{"a":3,"b":"late"}`}}, []Op{q(100), {Kind: "rotate"}, q(100)})
+	// ops: ingest, flush, ingest, flush, query, rotate, query -> latescan after the first flush
+	sc.Ops = append(sc.Ops[:2], append([]Op{{Kind: "latescan"}}, sc.Ops[2:]...)...)
+	sc.Range = append(sc.Range[:2], append([][2]int{{}}, sc.Range[2:]...)...)
+	return sc
+}
+
 func genKnown(r *vhlib.Rng) []*Scenario {
 	var out []*Scenario
+	out = append(out, genLateScan())
 	var sc *Scenario
 	add := func(sc *Scenario) { out = append(out, sc) }
 	// duplicate (flattened) key: raw block (cardinality limit reached) -> later records shift; dictionary block -> one value wins
@@ -1336,9 +1415,33 @@ func main() {
 	for i, w := range bigs {
 		scs = append(scs, genReuse(rr.Fork(), fmt.Sprintf("reuse_big%d", i), w, 1+(i%4)/3))
 	}
+	// wide events: more columns than the flush parallelism 2*GOMAXPROCS (GOMAXPROCS 1, 2, 16), sparse blocks
+	wr := vhlib.NewRng(cfg.Seed ^ 0x00C01A11DEC01A11) // its own stream
+	nWideSmall, wideBig := 6, [][4]int{{2, 20, 5, 650}, {16, 104, 4, 560}, {1, 14, 4, 600}}
+	if cfg.Thorough() {
+		nWideSmall = 80
+		wideBig = [][4]int{{2, 20, 6, 700}, {16, 104, 6, 1500}, {1, 14, 5, 600}, {2, 20, 8, 900}, {16, 104, 5, 600}, {16, 70, 6, 800},
+			{4, 32, 6, 700}, {8, 56, 6, 700}, {2, 13, 8, 1200}, {1, 8, 6, 700}, {16, 104, 6, 900}, {3, 26, 6, 800}}
+	}
+	for i := 0; i < nWideSmall; i++ {
+		scs = append(scs, genWideSmall(wr.Fork(), fmt.Sprintf("wide_small%d", i), 1+i%2))
+	}
+	for i, w := range wideBig {
+		scs = append(scs, genWide(wr.Fork(), fmt.Sprintf("wide%d", i), w[0], w[1], w[2], w[3]))
+	}
 	kr := r.Fork()
 	scs = append(scs, genKnown(kr)...)
 
+	// development aid: C01_ONLY=<prefix> keeps the scenarios whose name starts with the prefix
+	if only := os.Getenv("C01_ONLY"); only != "" {
+		var keep []*Scenario
+		for _, sc := range scs {
+			if strings.HasPrefix(sc.Name, only) {
+				keep = append(keep, sc)
+			}
+		}
+		scs = keep
+	}
 	// run
 	results := make([][]Obs, len(scs))
 	errs := make([]error, len(scs))
@@ -1382,7 +1485,7 @@ func main() {
 		_ = res
 	}
 	// shard the Coq case files by size
-	imports := "From Coq Require Import Uint63.\nFrom SigM Require Import Base Tlv TsEnc ColStore ColStoreCheck."
+	imports := "From Coq Require Import Uint63.\nFrom SigM Require Import Base Tlv TsEnc ColStore ColStoreCheck FlushSlots."
 	var cur strings.Builder
 	var curIdx []int
 	shard := 0
